@@ -377,6 +377,8 @@ struct FnDirective {
     guards: Vec<String>,
     logcalls_drop: bool,
     loopawaits: Option<(usize, String, String)>,
+    timedawaits: Option<(Vec<String>, String)>,
+    awaitfn: Option<String>,
     mutparams: Vec<String>,
     retain_captures: Vec<(String, String)>,
     retain_clauses: Vec<String>,
@@ -874,6 +876,8 @@ fn main() {
                 noisolation: opts.contains_key("noisolation"),
                 guards: opts.get("guards").map(|s| s.split_whitespace().map(|x| x.to_string()).collect()).unwrap_or_default(),
                 logcalls_drop: opts.get("logcalls").map_or(false, |v| v == "drop"),
+                timedawaits: opts.get("timedawaits").and_then(|v| v.split_once(':').map(|(a, l)| (a.split(',').filter(|x| !x.is_empty()).map(|x| x.to_string()).collect(), l.to_string()))),
+                awaitfn: opts.get("awaitfn").cloned(),
                 loopawaits: opts.get("loopawaits").and_then(|v| { let p: Vec<&str> = v.splitn(3, ':').collect(); if p.len() == 3 { p[0].parse::<usize>().ok().map(|n| (n, p[1].to_string(), p[2].to_string())) } else { None } }),
                 retain_captures: opts.get("retain_captures").map(|s| s.split(';').filter_map(|x| x.split_once(':').map(|(a, b)| (a.trim().to_string(), b.trim().to_string()))).collect()).unwrap_or_default(),
                 slots: opts.get("slots").map(|s| s.split_whitespace().filter_map(|x| x.split_once(':').map(|(a, b)| (a.to_string(), b.to_string()))).collect()).unwrap_or_default(),
@@ -1092,6 +1096,8 @@ fn emit_fn(
     rw.allow_log_calls = true; // (the per-function option `logcalls=drop` is now the default)
     let _ = d.logcalls_drop;
     rw.loop_await_rule = d.loopawaits.as_ref().map(|(n, m, _)| (*n, m.clone()));
+    rw.timed_awaits = d.timedawaits.as_ref().map(|x| x.0.clone());
+    rw.await_fn = d.awaitfn.clone();
     rw.try_expand = method_maps.iter().any(|(k, _)| k == "flag:tryexpand");
     rw.retain_captures = d.retain_captures.clone();
     rw.fn_name = d.rename.clone().unwrap_or_else(|| d.name.clone());
@@ -1431,7 +1437,7 @@ fn emit_fn(
             let g = r.trim_end_matches(");");
             *l = format!("proof {{ vx_guard_{g} = false; }} /*vxguard*/");
         } else if t.starts_with("vx_forbidden_await!(") {
-            let lab = d.loopawaits.as_ref().map(|x| x.2.clone()).unwrap_or_else(|| format!("{guard_prop}.forbidden_wait"));
+            let lab = d.loopawaits.as_ref().map(|x| x.2.clone()).or_else(|| d.timedawaits.as_ref().map(|x| x.1.clone())).unwrap_or_else(|| format!("{guard_prop}.forbidden_wait"));
             *l = format!("assert(false); // [{lab}] /*vxguard*/");
         } else if let Some(r) = t.strip_prefix("vx_await_check!(") {
             let g = r.trim_end_matches(");");
